@@ -522,3 +522,157 @@ def bool_is_int(ctx, fns, clause, rule="TYPE-bool"):
                        f"under `{norm(node.test)[:60]}` the values are given an integer dtype ({norm(hit)[:50]}); True and False pass "
                        f"isinstance(x, int) too, so a boolean column comes back as int64", clause=clause)
     ctx.note(f"{rule}: {n} isinstance(..., int) test(s) examined")
+
+
+ONE_SHOT_CALLS = {"map", "zip", "filter", "iter", "reversed", "enumerate"}
+
+
+def language_traps(ctx, fns, clause):
+    """TRAP-*: four Python semantics traps that turn a tidy-up into a behaviour change, each decided from the def-use
+    structure of one function:
+      TRAP-iter    a one-shot iterator (generator expression, map / zip / filter / reversed / enumerate object) bound to a
+                   local is consumed at two places that both execute: the second sees it exhausted;
+      TRAP-late    a lambda / local function created in a loop reads the loop variable and outlives the iteration (stored,
+                   appended, yielded, returned): every closure sees the last value;
+      TRAP-default a parameter's mutable default ([] / {} / set()) is mutated or escapes: state leaks between calls;
+      TRAP-shared  dict.fromkeys(keys, <mutable>) makes every key share one object."""
+    from ..dataflow import defs_reaching
+    from ..common import precedes
+    for r_, t_ in (("TRAP-iter", "a one-shot iterator bound to a local is consumed once"),
+                   ("TRAP-late", "closures created in a loop do not read the loop variable after the iteration"),
+                   ("TRAP-default", "mutable default arguments are neither mutated nor handed out"),
+                   ("TRAP-shared", "dict.fromkeys is not given a mutable value")):
+        ctx.rule(r_, t_)
+    n = {"iter": 0, "late": 0, "default": 0, "shared": 0}
+    for fn in fns:
+        for f in _all_fns([fn]):
+            parent = f.module.parent
+            nodes = list(body_nodes(f.node))
+            # ---- TRAP-iter
+            for a in nodes:
+                if not (isinstance(a, ast.Assign) and len(a.targets) == 1 and isinstance(a.targets[0], ast.Name)):
+                    continue
+                v = a.value
+                one_shot = isinstance(v, ast.GeneratorExp) or (isinstance(v, ast.Call) and isinstance(v.func, ast.Name)
+                                                               and v.func.id in ONE_SHOT_CALLS)
+                if not one_shot:
+                    continue
+                name = a.targets[0].id
+                n["iter"] += 1
+                uses = [u for u in nodes if isinstance(u, ast.Name) and u.id == name and isinstance(u.ctx, ast.Load)
+                        and any(d.node is not None and d.node.ast is a for d in defs_reaching(f, name, u))
+                        and len(defs_reaching(f, name, u)) == 1]
+                # uses inside a loop body that the definition is outside of run repeatedly
+                def in_loop_after_def(u):
+                    p = parent.get(u)
+                    while p is not None and p is not f.node:
+                        if isinstance(p, (ast.For, ast.While)) and not any(x is a for x in ast.walk(p)):
+                            # the iterable position of that very loop is evaluated once
+                            if isinstance(p, ast.For) and any(x is u for x in ast.walk(p.iter)):
+                                return False
+                            return True
+                        if isinstance(p, (ast.ListComp, ast.SetComp, ast.DictComp, ast.GeneratorExp)):
+                            # not the first iterable of a comprehension: evaluated once per outer element
+                            if not any(x is u for x in ast.walk(p.generators[0].iter)):
+                                return True
+                        p = parent.get(p)
+                    return False
+                again = [u for u in uses if in_loop_after_def(u)]
+                pairs = [(u1, u2) for i_, u1 in enumerate(uses) for u2 in uses[i_ + 1:] if precedes(f, u1, u2) or precedes(f, u2, u1)]
+                bad = again or pairs
+                if bad:
+                    where = again[0] if again else pairs[0][1]
+                    ctx.ob("TRAP-iter", f, f"{name} = {norm(v)[:50]}", where, False,
+                           f"{name} is a one-shot iterator ({norm(v)[:40]}) and is consumed "
+                           + ("inside a loop, once per iteration" if again else f"at lines {sorted({pairs[0][0].lineno, pairs[0][1].lineno})}")
+                           + ": after the first pass it is empty, so the later pass sees no elements", clause=clause)
+            # ---- TRAP-late
+            for loop in [x for x in nodes if isinstance(x, ast.For)]:
+                lvars = {t.id for t in ast.walk(loop.target) if isinstance(t, ast.Name)}
+                for lam in [x for b in loop.body for x in ast.walk(b) if isinstance(x, (ast.Lambda, ast.FunctionDef))]:
+                    params = {p.arg for p in lam.args.posonlyargs + lam.args.args + lam.args.kwonlyargs}
+                    body = [lam.body] if isinstance(lam, ast.Lambda) else lam.body
+                    reads = {m.id for b in body for m in ast.walk(b) if isinstance(m, ast.Name) and isinstance(m.ctx, ast.Load)} - params
+                    cap = reads & lvars
+                    if not cap:
+                        continue
+                    n["late"] += 1
+                    par = parent.get(lam)
+                    # called on the spot (as the function of a call, or as key=/argument of a call completed in this iteration): fine
+                    stored = False
+                    if isinstance(lam, ast.Lambda):
+                        if isinstance(par, (ast.Assign,)) and any(isinstance(t, ast.Subscript) for t in par.targets):
+                            stored = True
+                        if isinstance(par, ast.Call) and isinstance(par.func, ast.Attribute) and par.func.attr in ("append", "add", "setdefault", "insert") \
+                                and lam in par.args:
+                            stored = True
+                        if isinstance(par, (ast.Yield, ast.Return, ast.Dict, ast.List, ast.Tuple)):
+                            stored = True
+                    else:
+                        nm = lam.name
+                        stored = any(isinstance(x, ast.Call) and isinstance(x.func, ast.Attribute) and x.func.attr in ("append", "add", "setdefault", "insert")
+                                     and any(isinstance(z, ast.Name) and z.id == nm for z in x.args) for b in loop.body for x in ast.walk(b)) or \
+                            any(isinstance(x, ast.Assign) and any(isinstance(t, ast.Subscript) for t in x.targets)
+                                and isinstance(x.value, ast.Name) and x.value.id == nm for b in loop.body for x in ast.walk(b))
+                    if stored:
+                        ctx.ob("TRAP-late", f, f"closure over {sorted(cap)} created in `for {norm(loop.target)} in ...`", lam, False,
+                               f"the closure reads {sorted(cap)} when it is CALLED, not when it is created: kept beyond the iteration, every "
+                               f"closure of this loop sees the last value of {sorted(cap)}", clause=clause)
+            # ---- TRAP-default
+            for p_, d_ in f.defaults.items():
+                if not (isinstance(d_, (ast.List, ast.Dict, ast.Set)) or (isinstance(d_, ast.Call) and isinstance(d_.func, ast.Name)
+                                                                          and d_.func.id in ("list", "dict", "set") and not d_.args)):
+                    continue
+                n["default"] += 1
+                hits = []
+                for u in nodes:
+                    if not (isinstance(u, ast.Name) and u.id == p_ and isinstance(u.ctx, ast.Load)):
+                        continue
+                    if not any(d.kind == "param" for d in defs_reaching(f, p_, u)):
+                        continue
+                    par = parent.get(u)
+                    if isinstance(par, ast.Attribute) and par.attr in ("append", "extend", "insert", "add", "update", "setdefault", "pop",
+                                                                       "remove", "clear", "sort", "reverse", "popitem", "discard"):
+                        if isinstance(parent.get(par), ast.Call):
+                            hits.append((u, f".{par.attr}()"))
+                    if isinstance(par, ast.Subscript) and isinstance(par.ctx, (ast.Store, ast.Del)) and par.value is u:
+                        hits.append((u, "item assignment"))
+                    if isinstance(par, ast.AugAssign) and par.target is u:
+                        hits.append((u, "augmented assignment"))
+                    if isinstance(par, ast.Return) and par.value is u:
+                        hits.append((u, "returned"))
+                for aug in [x for x in nodes if isinstance(x, ast.AugAssign) and isinstance(x.target, ast.Name) and x.target.id == p_]:
+                    if any(d.kind == "param" for d in defs_reaching(f, p_, aug)):
+                        hits.append((aug, "augmented assignment"))
+                if hits:
+                    ctx.ob("TRAP-default", f, f"{p_}={norm(d_)}: {hits[0][1]}", hits[0][0], False,
+                           f"the default {norm(d_)} of {p_!r} is one object shared by all calls; {hits[0][1]} changes or exposes it, so a later "
+                           f"call without that argument starts from what an earlier call left behind", clause=clause)
+            # ---- TRAP-shared
+            for c in [x for x in nodes if isinstance(x, ast.Call)]:
+                if norm(c.func) in ("dict.fromkeys",) or (isinstance(c.func, ast.Attribute) and c.func.attr == "fromkeys"):
+                    if len(c.args) == 2:
+                        n["shared"] += 1
+                        v = c.args[1]
+                        mut = isinstance(v, (ast.List, ast.Dict, ast.Set, ast.ListComp, ast.DictComp)) or (
+                            isinstance(v, ast.Call) and isinstance(v.func, ast.Name) and v.func.id in ("list", "dict", "set"))
+                        if mut:
+                            ctx.ob("TRAP-shared", f, norm(c)[:70], c, False,
+                                   f"every key of {norm(c)[:50]} refers to the SAME {norm(v)} object: what is added under one key shows under all",
+                                   clause=clause)
+    ctx.note(f"TRAP: {n['iter']} one-shot iterators bound to locals, {n['late']} closures over loop variables, "
+             f"{n['default']} mutable defaults, {n['shared']} fromkeys(keys, value) calls examined")
+
+
+def anchor_functions(repo, prop_id):
+    """Top-level functions and methods of the files the property statement is anchored in (properties.jsonl)."""
+    import json
+    import os
+    here = os.path.dirname(os.path.dirname(os.path.dirname(os.path.abspath(__file__))))
+    files = []
+    with open(os.path.join(here, "properties.jsonl")) as fh:
+        for line in fh:
+            p = json.loads(line)
+            if p["id"] == prop_id:
+                files = p.get("anchors", {}).get("files", [])
+    return [f for f in repo.functions.values() if f.parent is None and f.module.path in files]
